@@ -111,3 +111,6 @@ class MultiObjectiveProgressTracker(ProgressTracker):
 
     def get_best_individuals(self) -> list[Individual]:
         return self.pareto_front
+
+    def get_best_individual(self) -> Individual:
+        return self.pareto_front[0] if self.pareto_front else None
